@@ -141,10 +141,19 @@ func (g *gen) bindResults(res []Type, call string) {
 		g.feat("tuple-blank")
 	}
 	g.emit("%s := %s; %s = %s", strings.Join(names, ", "), call, strings.Join(blanks, ", "), strings.Join(namesOrBlank(names), ", "))
+	var strs []string
 	for i, r := range res {
 		if names[i] != "_" {
 			g.declare(names[i], r)
+			if r == TStr {
+				strs = append(strs, names[i])
+			}
 		}
+	}
+	if len(strs) >= 2 && g.chance(30, "tupleconcat") {
+		// two elements of the tuple returned by ONE call flow into one argument of another call
+		g.newVar(TStr, "ident("+strs[0]+" + "+strs[1]+")")
+		g.feat("tuple-elements-into-one-argument")
 	}
 }
 
@@ -304,16 +313,32 @@ func (g *gen) stmt() {
 	case "for":
 		g.feat("for")
 		i := g.fresh()
-		if g.chance(20, "forever") {
+		if g.chance(35, "forever") {
 			// loop without header: the body block is its own predecessor when the body has no inner control flow
 			g.feat("for-single-block")
 			g.emit("%s := 0", i)
+			acc := ""
+			if g.chance(70, "foracc") {
+				// an accumulator that is used at the start of the body and updated at its end: the value travels around
+				// the loop through a phi of the body block
+				acc = g.newVar(TStr, g.expr(TStr, 1))
+				g.feat("loop-accumulator")
+			}
 			g.emit("for {")
 			g.nbits++
 			g.indent++
+			if acc != "" {
+				line := g.nextLine()
+				g.prog.Sinks[line] = "sink1"
+				g.prog.SinkFunc[line] = g.curName
+				g.emit("sink1(%d, %s)", line, acc)
+			}
 			g.inLoop++
 			g.block(1 + g.intn(3, "forn"))
 			g.inLoop--
+			if acc != "" {
+				g.emit("%s = %s + %s", acc, acc, g.expr(TStr, 1))
+			}
 			g.emit("%s++", i)
 			g.emit("if %s >= bound(%d) {", i, g.bit())
 			g.emit("\tbreak")
